@@ -63,6 +63,7 @@ type Leaf struct {
 	NotAfter   time.Time
 	SelfSigned bool
 	Client     bool
+	NoEKU      bool // no extended-key-usage extension at all (good for any purpose)
 }
 
 // Issue makes a leaf certificate signed by ca (or self-signed).
@@ -78,6 +79,9 @@ func (ca *CA) Issue(l Leaf) tls.Certificate {
 		ExtKeyUsage: []x509.ExtKeyUsage{x509.ExtKeyUsageServerAuth, x509.ExtKeyUsageClientAuth}, DNSNames: l.DNS}
 	for _, ip := range l.IPs {
 		t.IPAddresses = append(t.IPAddresses, net.ParseIP(ip))
+	}
+	if l.NoEKU {
+		t.ExtKeyUsage = nil
 	}
 	parent, pk := ca.Cert, ca.Key
 	if l.SelfSigned {
